@@ -85,6 +85,12 @@ func (c RawConfiguration) handleAsyncCall(ctx context.Context, fut *Async, state
 
 	for {
 		if len(errs)+len(replies) == state.expectedReplies {
+			if err := ctx.Err(); err != nil {
+				// the nodes were answered on behalf of the ended context
+				// (see enqueue and sendMsg); this is not an incomplete call
+				fut.reply, fut.err = resp, QuorumCallError{cause: err, errors: errs, replies: len(replies)}
+				return
+			}
 			fut.reply, fut.err = resp, QuorumCallError{cause: Incomplete, errors: errs, replies: len(replies)}
 			return
 		}
